@@ -21,7 +21,7 @@ RULE = ("seeded histories of Spans add/remove/contains/len/&/+/-/+=/-= and DataS
         "compared after every step); a case is one operation; distinct = distinct (kind, state-before, op) triples; "
         "non-trivial = the state before the op is non-empty")
 TRUSTED = ["lean/Tahoe/Spans/Model.lean, DataModel.lean and RegModel.lean are hand transcriptions of util/spans.py (insert+sort modelled "
-           "as ordered insert; index loops as structural recursion over the list suffix; DataSpans.add case A followed by "
+           "as ordered insert; Spans.remove's append+sort as ordered insertion into the unscanned suffix; index loops as structural recursion over the list suffix; DataSpans.add case A followed by "
            "the re-iteration at the same chunk is inlined)"]
 ASSUMPTIONS = ["offsets and lengths are non-negative ints (asserted by Spans.add/remove; DataSpans is only called with share offsets)",
                "DataSpans.get/pop with length 0 is outside the statement (result compared with the model only)",
@@ -54,8 +54,12 @@ def gen_history(rng, n, maxoff, base=0):
             ops.append(("r", a, l))
         elif r < 0.70:
             ops.append(("c", a, l))
-        elif r < 0.78:
+        elif r < 0.75:
             ops.append(("l",))
+        elif r < 0.765:
+            ops.append(("e",))
+        elif r < 0.78:
+            ops.append(("b",))
         elif r < 0.88:
             ops.append(("i", gen_pairs(rng, maxoff, base), rng.randrange(4)))
         elif r < 0.94:
@@ -118,6 +122,15 @@ def run_impl(ctx, ops):
                 ctx.violation("Spans.len differs from the set of integers", case, "spans-len")
             if bool(s) != bool(ref):
                 ctx.violation("bool(Spans) differs from non-emptiness of the set", case, "spans-bool")
+        elif k == "e":
+            got = list(s.each())
+            if sorted(got) != sorted(ref):
+                ctx.violation("Spans.each() does not enumerate exactly the members, once each", case, "spans-each")
+            outs.append(",".join(str(x) for x in got) or "-")
+        elif k == "b":
+            if bool(s) != bool(ref):
+                ctx.violation("bool(Spans) differs from non-emptiness of the set", case, "spans-bool")
+            outs.append("T" if s else "F")
         elif k in "ium":
             o = build_other(op[1], op[2])
             oref = set_of(op[1])
@@ -171,8 +184,8 @@ def line_of(ops):
     for op in ops:
         if op[0] in "arc":
             toks.append("%s:%d:%d" % tuple(op[:3]))
-        elif op[0] == "l":
-            toks.append("l")
+        elif op[0] in "leb":
+            toks.append(op[0])
         else:
             # the driver receives `other` already normalised (what iterating a Spans object yields)
             toks.append(op[0] + ":" + (",".join("%d+%d" % x for x in normalise(op[1])) or "-"))
@@ -205,8 +218,12 @@ def gen_dhistory(rng, n, maxoff, base=0):
             ops.append(("g", a, 0 if rng.random() < 0.04 else l))
         elif r < 0.86:
             ops.append(("p", a, 0 if rng.random() < 0.04 else l))
-        elif r < 0.93:
+        elif r < 0.91:
             ops.append(("l",))
+        elif r < 0.925:
+            ops.append(("e",))
+        elif r < 0.94:
+            ops.append(("b",))
         else:
             ops.append(("s",))
     return ops
@@ -322,6 +339,15 @@ def run_dimpl(ctx, ops):
             if bool(ds) != bool(ref):
                 ctx.violation("bool(DataSpans) differs from non-emptiness of the map", case, "dspans-bool")
             outs.append(str(n))
+        elif k == "e":
+            got = list(ds._dump())
+            if sorted(got) != sorted(ref):
+                ctx.violation("DataSpans._dump does not enumerate exactly the held offsets, once each", case, "dspans-dump")
+            outs.append(",".join(str(x) for x in got) or "-")
+        elif k == "b":
+            if bool(ds) != bool(ref):
+                ctx.violation("bool(DataSpans) differs from non-emptiness of the map", case, "dspans-bool")
+            outs.append("T" if ds else "F")
         elif k == "s":
             sp = ds.get_spans()
             if set(sp.each()) != set(ref):
@@ -628,7 +654,8 @@ SPANS_CORPUS = [
     # seeded C37-e: `+` / `+=` with an operand that starts exactly where my last span ends must merge the two
     [("a", 0, 4), ("u", [(4, 2)], 1, "+"), ("c", 0, 6), ("c", 3, 2), ("l",), ("u", [(6, 1), (9, 2)], 3, "+="), ("c", 0, 7), ("l",),
      ("u", [(20, 2)], 2, "+="), ("u", [(11, 1)], 0, "+"), ("c", 9, 3), ("a", 30, 1), ("l",)],
-    [("a", 5, 5), ("a", 10, 2), ("a", 3, 2), ("a", 20, 1), ("a", 0, 30), ("l",), ("c", 0, 30), ("c", 0, 31)],
+    [("b",), ("e",), ("a", 5, 5), ("a", 12, 2), ("e",), ("b",), ("a", 10, 2), ("a", 3, 2), ("a", 20, 1), ("e",), ("a", 0, 30), ("l",), ("c", 0, 30), ("c", 0, 31),
+     ("r", 0, 40), ("b",), ("e",)],
     [("a", 0, 10), ("r", 3, 4), ("r", 0, 3), ("r", 9, 5), ("r", 7, 2), ("l",), ("c", 7, 1)],
     [("a", 0, 4), ("a", 6, 4), ("a", 12, 4), ("r", 2, 12), ("a", 4, 2), ("i", [(1, 2), (7, 20)], 1), ("l",)],
     [("a", 10, 5), ("i", [], 0), ("a", 1, 1), ("i", [(0, 1)], 2), ("u", [(3, 3), (6, 1)], 3, "+"), ("m", [(4, 1)], 1, "-="),
@@ -651,7 +678,7 @@ DSPANS_CORPUS = [
     [("a", 0, "0000"), ("a", 4, "1111"), ("a", 10, "2222"), ("a", 2, "abcdefabcdefabcdefabcdef"), ("g", 0, 14), ("g", 0, 15)],
     [("a", 0, "00112233445566778899"), ("r", 3, 4), ("r", 0, 1), ("r", 9, 5), ("r", 1, 2), ("r", 7, 2), ("l",), ("s",)],
     [("a", 0, "0011"), ("a", 4, "2233"), ("a", 8, "4455"), ("r", 1, 8), ("g", 0, 1), ("g", 0, 2), ("g", 9, 1), ("p", 0, 0), ("g", 0, 0), ("g", 5, 0)],
-    [("a", 5, ""), ("a", 5, "aa"), ("a", 5, ""), ("p", 5, 1), ("p", 5, 1), ("l",), ("s",)],
+    [("b",), ("e",), ("a", 5, ""), ("b",), ("a", 5, "aa"), ("a", 8, "bbcc"), ("e",), ("b",), ("a", 5, ""), ("p", 5, 1), ("p", 5, 1), ("r", 8, 2), ("b",), ("e",), ("l",), ("s",)],
     [("a", 0, "aa"), ("a", 2, "bb"), ("a", 1, "cc"), ("a", 4, "dd"), ("a", 3, "ee"), ("g", 0, 5), ("p", 1, 3), ("g", 0, 1), ("g", 4, 1)],
 ]
 
